@@ -171,10 +171,11 @@ def C11(run):
 
 def C12(run):
     run.deductive(keys=[U + 'map_to_state', U + 'state_to_map', ST + 'CliffordMap.to_state#r', ST + 'CliffordMap.to_state#none', ST + 'StabilizerState.to_map', ST + 'identity_map', U + 'stabilizer_project',
-                        ST + 'zero_state', ST + 'one_state', ST + 'maximally_mixed_state'], lemmas=['acq_bilinear', 'acq_antisym', 'acq_unit', 'acqsum_ext'])
+                        ST + 'zero_state', ST + 'one_state', ST + 'maximally_mixed_state', ST + 'random_pauli_state#none', ST + 'random_pauli_state#r'],
+                  lemmas=['acq_bilinear', 'acq_antisym', 'acq_unit', 'acqsum_ext', 'map_state_roundtrip'])
     run.bounded_check('c12_states', _b().c12_states, Nmax=q(run, 3, 3), count=q(run, 20, 300))
     return 'other', ('deductive (all N): map_to_state / state_to_map are the exact row and phase permutations (Z-images -> stabilizers, '
-                     'X-images -> destabilizers); CliffordMap.to_state turns the canonical commutation relations of a map into the tableau '
+                     'X-images -> destabilizers) and their composition is the identity on tables and signs (lemma map_state_roundtrip over the two contracts); CliffordMap.to_state turns the canonical commutation relations of a map into the tableau '
                      'structure of the state; identity_map satisfies them, so zero_state / maximally_mixed_state are the valid Z-basis tableaux '
                      'with all signs + and rank 0 / N, one_state the same tableau with all signs -; bounded: constructors, to_state/to_map round trip, to_qutip, stabilizer_state against dense matrices')
 
